@@ -337,12 +337,15 @@ func RunDecoders(o *drv.Out) {
 	o.Case("decoders")
 	panics, hangs := 0, 0
 	failed := map[string]bool{}
-	for i := 0; i < n+len(valid); i++ {
+	boundary := boundaryLengths(valid)
+	for i := 0; i < n+len(valid)+len(boundary); i++ {
 		var b []byte
 		kind := ""
 		switch {
 		case i < len(valid):
 			b, kind = valid[i], "valid" // every well-formed input once, unmodified
+		case i < len(valid)+len(boundary):
+			b, kind = boundary[i-len(valid)], "boundary-length"
 		default:
 		}
 		if kind == "" {
@@ -361,9 +364,22 @@ func RunDecoders(o *drv.Out) {
 			b = []byte{}
 		}
 		// (1) modelled: Transaction decoding (accept / reject / unknown fields) and the pre-flight scan
-		res := c06.DecodeTxReal(b)
+		// (both run under the same trap as the other decoders: a panic or a hang of the real scan is a
+		// finding with this input as replay, not a crash of the driver)
+		var res, pre string
+		if g := guarded(5*time.Second, func() error { res = c06.DecodeTxReal(b); return nil }); g != "ok" {
+			res = modelledTrap(o, failed, "Transaction-decode", g, b, kind, &panics, &hangs)
+		}
+		if g := guarded(5*time.Second, func() error { pre = preflightVerdict(b); return nil }); g != "ok" {
+			pre = modelledTrap(o, failed, "Unmarshal-preflight", g, b, kind, &panics, &hangs)
+		}
 		o.Op("dectx "+drv.Hex(b), res)
-		o.Op("preflight "+drv.Hex(b), preflightVerdict(b))
+		o.Op("preflight "+drv.Hex(b), pre)
+		if hangs > 12 {
+			// every hang leaves a spinning goroutine behind: stop here, the findings are recorded
+			o.Count("decoders:stopped-after-hangs")
+			break
+		}
 		o.Count("dectx:" + kind + ":" + strings.SplitN(res, " ", 2)[0])
 		o.Nontrivial("dec " + drv.Hex(b))
 		// (2) every decoder + handler
@@ -414,6 +430,52 @@ func RunDecoders(o *drv.Out) {
 	o.Extra["decoder_panics"] = panics
 	o.Extra["decoder_hangs"] = hangs
 	o.Extra["decoders_exercised"] = len(decs)
+}
+
+// boundaryLengths: length-delimited fields whose declared length sits at the integer boundaries of the
+// scanners (int32/int64/uint64 edges, and lengths that make `offset + length` wrap back onto the field
+// itself), alone and appended to a well-formed message.
+func boundaryLengths(valid [][]byte) [][]byte {
+	var out [][]byte
+	lens := []uint64{1<<31 - 1, 1 << 31, 1<<32 - 1, 1 << 32, 1<<63 - 1, 1 << 63, 1<<63 + 1, ^uint64(0), ^uint64(0) - 1}
+	for k := uint64(2); k <= 24; k++ {
+		lens = append(lens, ^uint64(0)-k+1) // 2^64 - k: rewinds the offset by k bytes
+	}
+	for _, tag := range []byte{0x0a, 0x12, 0x1a, 0x3a} {
+		for _, l := range lens {
+			f := append([]byte{tag}, encodeVarint(l)...)
+			out = append(out, f, append(append([]byte{}, f...), 0x00, 0x01))
+			if len(valid) > 0 {
+				out = append(out, append(append([]byte{}, valid[0]...), f...))
+			}
+		}
+	}
+	return out
+}
+
+// modelledTrap records a panic/hang of one of the two modelled decoders and returns the result line
+// handed to the comparison (the model never answers "panic"/"hang", so the line disagrees as well).
+func modelledTrap(o *drv.Out, failed map[string]bool, name, g string, b []byte, kind string, panics, hangs *int) string {
+	if g == "hang" {
+		*hangs++
+		o.Count("decoder-hang:" + name)
+		if !failed["hang:"+name] {
+			failed["hang:"+name] = true
+			o.Fail("C19:decoder-hang:"+name, fmt.Sprintf("%s did not return within 5s on %d bytes (%s)", name, len(b), kind), map[string]any{"decoder": name, "input": drv.Hex(b)})
+		}
+		return "hang"
+	}
+	*panics++
+	site := "unknown-site"
+	if parts := strings.SplitN(g, ":", 3); len(parts) > 1 {
+		site = parts[1]
+	}
+	o.Count("decoder-panic:" + name + ":" + site)
+	if !failed["panic:"+site] {
+		failed["panic:"+site] = true
+		o.Fail("C19:decoder-panic:"+site, fmt.Sprintf("%s panics in %s on %d bytes (%s): %s", name, site, len(b), kind, g), map[string]any{"decoder": name, "input": drv.Hex(b), "panic": g})
+	}
+	return "panic"
 }
 
 func encodeVarint(v uint64) []byte {
